@@ -31,13 +31,6 @@ pub struct ExFromUtf8Error(std::string::FromUtf8Error);
 #[verifier::external_body]
 pub struct OpaqueErrorSource(Box<dyn core::error::Error + Send + Sync + 'static>);
 
-// A slice's length is a `usize` (Rust language fact; Verus only learns it from a `.len()` call).
-pub mod machine_facts {
-    use vstd::prelude::*;
-    pub broadcast axiom fn axiom_slice_len_fits_usize(s: &[u8])
-        ensures #[trigger] s@.len() <= usize::MAX;
-}
-
 // `Range<Idx>: Clone` clones both ends (std's derived impl).
 pub assume_specification<Idx: Clone>[<Range<Idx> as Clone>::clone](r: &Range<Idx>) -> (res: Range<Idx>)
     ensures cloned(r.start, res.start), cloned(r.end, res.end);
